@@ -363,8 +363,8 @@ class Interp:
                 v = strip_places(v)
                 if v[0] == 'ctor' and v[1] == 'Some' and len(v[2]) == 1 and elems and v[2][0] == elems[i] and e.get('ty') == 'core::option::Option<&%s>' % ety:
                     v = ('ctor', 'Some', (place_elem(v[2][0], token, i, '&' + ety),))
-            elif cal is not None and cal not in self.REF_PRESERVING:
-                v = strip_places(v)
+            elif k in ('Call', 'MethodCall') and cal not in self.REF_PRESERVING and not (k == 'Call' and e['f']['k'] == 'Path' and e['f'].get('defkind', '').startswith('Ctor')):
+                v = strip_places(v)     # (a tuple-variant constructor `Some(r)` is a Call too: it holds its argument, by type, below)
             else:
                 v = keep_places_of_type(v, e.get('ty') or '')
             res.append(Out(o.kind, v, o.st, o.target))
@@ -521,6 +521,20 @@ class Interp:
             # `&*r` of a shared reference r, at r's own type: a reborrow - the same address (the built-in dereference of a reference,
             # no Deref impl involved), so r's position mark stays; any other `&expr` is evaluated as usual and loses it
             return self.ev(inner['e'], st)
+        if self.elem_refs and not e.get('mut') and inner['k'] == 'Index':
+            # `&v[i]` with a known i inside the bounds of a local vector known element by element: the address of that element
+            src = self.elem_ref_source(inner['e'], st)
+            if src is not None and e.get('ty') == '&' + src[2]:
+                token, elems, ety = src
+                res = []
+                for o in self.ev(inner['idx'], st):
+                    i = o.val[1] if o.kind == 'val' and o.val[0] == 'lit' else None
+                    if isinstance(i, int) and not isinstance(i, bool) and 0 <= i < len(elems):
+                        res.append(Out('val', place_elem(elems[i], token, i, '&' + ety), o.st))
+                    else:
+                        res = None; break
+                if res is not None:
+                    return res
         outs = self.ev(e['e'], st)
         if e.get('mut') and not self.places and inner.get('k') == 'Path' and inner.get('res') == 'local' and st.env.get(inner['bind'], ('unk',))[0] in TRACKED_VEC:
             # `&mut v` of a local whose elements are tracked is handed to code without a model (the modelled uses - encode_into,
